@@ -21,7 +21,10 @@ if os.path.exists(pend_file):
 props = [json.loads(l) for l in open(os.path.join(HERE, "properties.jsonl"))]
 checks = []
 engines = {}
+REGISTERED = open(os.path.join(HERE, "tools", "registered.txt")).read().split()
 for pid, (m, c) in sorted(vc.CHECKS.items()):
+    if pid not in REGISTERED:
+        continue   # work in progress: not claimed
     chk = getattr(importlib.import_module(m), c)()
     eng = getattr(chk, "ENGINE", "hypothesis+opmprobe")
     engines.setdefault(eng, []).append(pid)
